@@ -33,7 +33,10 @@ def decimalValue (t : List Nat) : Nat := t.foldl (fun a c => a * 10 + (c - 48)) 
 
 def ttlFromText (t : List Nat) : Except String Nat :=
   let totalE : Except String Nat :=
-    if t ≠ [] ∧ t.all isDigit then .ok (decimalValue t)
+    if t ≠ [] ∧ t.all isDigit then
+      -- `int(text)` refuses more than 4300 digits (CPython's default `int_max_str_digits`); since the
+      -- `fix:` commit that is reported as BadTTL
+      (if t.length > 4300 then .error "BadTTL" else .ok (decimalValue t))
     else if t = [] then .error "BadTTL"
     else ttlLoop t 0 0 true
   match totalE with
